@@ -244,6 +244,23 @@ where
     Ok(())
 }
 
+/// `__typename` is the tag of the generated enums, so it has to arrive under its own name.
+fn validate_typename_field<'doc, T>(
+    field: &graphql_parser::query::Field<'doc, T>,
+) -> Result<(), QueryValidationError>
+where
+    T: graphql_parser::query::Text<'doc>,
+{
+    if let Some(alias) = field.alias.as_ref() {
+        return Err(QueryValidationError::new(format!(
+            "`__typename` cannot be aliased (`{}: __typename`).",
+            alias.as_ref()
+        )));
+    }
+
+    Ok(())
+}
+
 fn resolve_union_selection<'doc, T>(
     query: &mut Query,
     _union_id: UnionId,
@@ -258,6 +275,7 @@ where
         match item {
             graphql_parser::query::Selection::Field(field) => {
                 if field.name.as_ref() == TYPENAME_FIELD {
+                    validate_typename_field(field)?;
                     let id = query.push_selection(Selection::Typename, parent);
                     parent.add_to_selection_set(query, id);
                 } else {
@@ -305,6 +323,7 @@ where
         match item {
             graphql_parser::query::Selection::Field(field) => {
                 if field.name.as_ref() == TYPENAME_FIELD {
+                    validate_typename_field(field)?;
                     let id = query.push_selection(Selection::Typename, parent);
                     parent.add_to_selection_set(query, id);
                     continue;
